@@ -187,10 +187,154 @@ static void run(void)
 	xp_state(hash_mix((uint64_t)ws * 100000 + (uint64_t)p * 1000 + (uint64_t)w, (uint64_t)q * 2 + (uint64_t)again));
 }
 
+
+/* ---- section 1: responses larger than what socket and write buffer take together ------------------------------------------
+ * A requester asks for something whose answer is one big frame (get over many states) - alone, first, in the middle or last in a
+ * batch, or followed by another request in the same chunk - while the kernel accepts only w bytes on its connection.  If the rest
+ * of the frame does not fit into the write buffer the frame cannot be completed: the daemon must close the connection; what the
+ * requester has received then is whole frames and at most one cut-off frame at the very end, never a cut-off frame followed by
+ * other data.  If it fits, the stream must equal the unlimited twin's. */
+static void run_responses(void)
+{
+	static const char *const FORMS[] = {"[%s]", "[%s,%s]", "[%s,%s,%s]", "[%s,%s]", "%s"};
+	int form = xp_choose(6, XP_SCENARIO, "request-form"); /* 0 batch [get]; 1 batch [get,info]; 2 batch [info,get,info]; 3 batch [info,get]; 4 get alone; 5 get and info as two messages in one chunk */
+	int ws = xp_choose(2, XP_SCENARIO, "requester-transport");
+	static const int WINDOWS[] = {1, 3, 4, 5, 50, 1000, 3000, 3600, 3680, 3700, 3800, 5000, 8000, 20000};
+	int nstates = (int)xp_param("states", 70);
+	int w = WINDOWS[xp_choose((int)(sizeof(WINDOWS) / sizeof(WINDOWS[0])), XP_SCENARIO, "window-bytes")];
+	if (xp_param("small_windows", 0)) {
+		w = 1 + (w % 97);
+	}
+	int reopen = xp_choose(2, XP_SCENARIO, "window-reopens-afterwards");
+	snprintf(what, sizeof(what), "%s requester, request form %d, the kernel accepts %d byte(s) of the answer%s (write buffer %d bytes)", ws ? "websocket" : "raw", form, w, reopen ? ", later everything" : "", (int)CONFIG_MAX_WRITE_BUFFER_SIZE);
+	int twin = xp_twin_begin();
+	struct sim_opts o = {0};
+	jx_boot(&o);
+	int O = jx_open(CL_RAW);
+	int S = jx_open(ws ? CL_WS : CL_RAW);
+	int S2 = jx_open(CL_RAW);
+	for (int i = 0; i < nstates; i++) {
+		jx_sendf(O, "{\"id\":%d,\"method\":\"add\",\"params\":{\"path\":\"big/%03d\",\"value\":\"%060d\"}}", i, i, i);
+		if ((i & 7) == 7) {
+			jx_settle();
+		}
+	}
+	jx_settle();
+	const char *get = "{\"id\":\"g\",\"method\":\"get\",\"params\":{\"path\":{\"startsWith\":\"big/\"}}}";
+	const char *info = "{\"id\":\"i\",\"method\":\"info\"}", *info2 = "{\"id\":\"j\",\"method\":\"info\"}";
+	char rq[600];
+	switch (form) {
+	case 0:
+		snprintf(rq, sizeof(rq), FORMS[0], get);
+		break;
+	case 1:
+		snprintf(rq, sizeof(rq), FORMS[1], get, info);
+		break;
+	case 2:
+		snprintf(rq, sizeof(rq), FORMS[2], info, get, info2);
+		break;
+	case 3:
+		snprintf(rq, sizeof(rq), FORMS[3], info, get);
+		break;
+	default:
+		snprintf(rq, sizeof(rq), "%s", get);
+	}
+	if (!twin) {
+		sim_set_window(S, w);
+	}
+	if (form == 5) {
+		struct bytebuf b = {0};
+		cl_frame_for(S, &b, get);
+		cl_frame_for(S, &b, info);
+		sim_client_send(S, b.p, b.len);
+		bb_free(&b);
+	} else {
+		cl_send_text(S, rq);
+	}
+	jx_settle();
+	if (!twin && reopen) {
+		sim_set_window(S, -1);
+		jx_settle();
+	}
+	jx_sendf(S2, "{\"id\":\"b\",\"method\":\"info\"}");
+	jx_settle();
+	if (!sim_conn_closed_by_daemon(S) && sim_conn_unread(S) == 0) {
+		jx_sendf(S, "{\"id\":\"end\",\"method\":\"info\"}");
+		jx_settle();
+	}
+	if (!twin) {
+		sim_set_window(S, -1);
+		jx_settle();
+	}
+	struct bytebuf mine = {0}, other = {0};
+	transcript_lines(S, &mine);
+	bb_printf(&mine, "== S2 closed=%d\n", sim_conn_closed_by_daemon(S2));
+	transcript_lines(S2, &mine);
+	if (twin) {
+		xp_twin_end(&mine, NULL);
+	}
+	xp_twin_end(&mine, &other);
+	bb_append(&mine, "", 1);
+	bb_append(&other, "", 1);
+	struct client *c = &clients[S];
+	const struct bytebuf *raw = sim_conn_output(S);
+	bool closed = sim_conn_closed_by_daemon(S);
+	if (c->frame_violation[0]) {
+		fail10("server-frame-malformed:response", "%s", c->frame_violation);
+	}
+	if (raw->len != c->consumed && !closed) {
+		char key[100];
+		snprintf(key, sizeof(key), "torn-frame-in-open-connection:response:%s", ws ? "ws" : "raw");
+		fail10(key, "the connection is still open after everything was flushed but %zu trailing byte(s) of its stream are not a complete frame", raw->len - c->consumed);
+	}
+	for (int i = 0; i < c->nmsgs; i++) {
+		if ((!ws || c->msgs[i].wsop == 1) && c->msgs[i].json == NULL) {
+			char key[100];
+			snprintf(key, sizeof(key), "frame-content-damaged:response:%s", ws ? "ws" : "raw");
+			fail10(key, "frame %d of the requester's stream is not the JSON text of one message (a cut-off frame followed by other data?): %.120s", i, c->msgs[i].text);
+		}
+	}
+	char *ms = strstr((char *)mine.p, "== S2"), *os = strstr((char *)other.p, "== S2");
+	if (ms == NULL || os == NULL || strcmp(ms, os) != 0) {
+		fail10("other-connections-affected:response", "the bystander's stream differs from the run without the limit");
+	}
+	*ms = 0;
+	*os = 0;
+	if (!closed) {
+		if (strcmp((char *)mine.p, (char *)other.p) != 0) {
+			xp_logf("---- limited ----\n%.3000s\n---- unlimited ----\n%.3000s", (char *)mine.p, (char *)other.p);
+			fail10("open-connection-stream-differs:response", "the connection stayed open, so every answer could be completed - but its stream differs from the run without the limit");
+		}
+		xp_count("answer_completed", 1);
+	} else {
+		/* whole frames received must be a prefix of the twin's frames */
+		if (strncmp((char *)mine.p, (char *)other.p, strlen((char *)mine.p)) != 0) {
+			fail10("closed-connection-stream-not-a-prefix:response", "the daemon closed the connection; the whole frames it sent before are not a prefix of the frames of the run without the limit");
+		}
+		xp_count("connection_closed_because_a_frame_could_not_be_completed", 1);
+	}
+	jx_close_all();
+	jx_check_idle_baseline("left-behind:");
+	jx_check_hygiene("hygiene:");
+	xp_nontrivial();
+	xp_transition();
+	xp_outcome(hash64(raw->p, raw->len, 10));
+	xp_state(hash_mix((uint64_t)form * 100000 + (uint64_t)w * 4 + (uint64_t)ws * 2 + (uint64_t)reopen, 3));
+}
+
+static void run_all(void)
+{
+	if (xp_param("section", 0) == 1) {
+		run_responses();
+	} else {
+		run();
+	}
+}
+
 const struct driver drv_c10s = {
     .name = "c10s",
     .property = "C10",
-    .run = run,
-    .rule = "daemon level: an owner changes a state 10 times (value sizes 1..80 bytes) plus another state; subscriber S (raw / websocket) and a second subscriber of the other transport watch; for every step p, every window w in {0,1,2,3,4,5,7,10,25,40,60,95,96,97,130,200} bytes and every later step q the kernel accepts only w bytes on S's connection from p on and everything again from q on (deviation: limited a second time later); compared with the unlimited twin: S's stream decodes into complete frames, its frames are a subsequence of the twin's frames in order (prefix if the daemon closed it), the other connections see identical streams; non-trivial = all runs",
+    .run = run_all,
+    .rule = "daemon level: an owner changes a state 10 times (value sizes 1..80 bytes) plus another state; subscriber S (raw / websocket) and a second subscriber of the other transport watch; for every step p, every window w in {0,1,2,3,4,5,7,10,25,40,60,95,96,97,130,200} bytes and every later step q the kernel accepts only w bytes on S's connection from p on and everything again from q on (deviation: limited a second time later); compared with the unlimited twin: S's stream decodes into complete frames, its frames are a subsequence of the twin's frames in order (prefix if the daemon closed it), the other connections see identical streams; non-trivial = all runs | section 1: a requester (raw / websocket) asks for an answer of one big frame (get over 70 states, ~6 KB) alone, at every position of a batch, or followed by another request in the same chunk, while the kernel accepts only w bytes (14 windows around frame size minus write buffer) and later everything or not: either the connection stays open and its stream equals the unlimited twin's, or the daemon closed it and the requester holds whole frames that are a prefix of the twin's plus at most one cut-off frame at the very end; the bystander is unaffected",
     .assumptions = "frames the daemon refused to queue for S (write buffer full) may be missing from S's stream; that S then has an incomplete replica is C11's / C01's subject",
 };
